@@ -43,7 +43,7 @@ class C02(Check):
     per_run_timeout = 240
     expected_probes = ["path:terminal-fast", "path:per-repetition", "feat:confusion", "feat:invert+confusion",
                        "feat:repeated-key", "feat:qudit-measure", "feat:classical-control", "feat:sympy-condition",
-                       "feat:bitmask-condition", "feat:indexed-condition", "feat:pauli-measure", "feat:reset",
+                       "feat:bitmask-condition", "feat:indexed-condition", "feat:pauli-measure", "feat:reset", "feat:subcircuit", "feat:subcircuit-key-map", "feat:subcircuit-rep-ids",
                        "sim:sv", "sim:dm", "sim:clifford", "sim:stab-sampler", "entry:run", "entry:simulate",
                        "entry:steps", "entry:sample", "entry:run_sweep", "entry:sweep-from-state", "gen:deep-clifford", "init:vector", "init:int", "order:permuted", "order:spectator"]
 
@@ -64,7 +64,8 @@ class C02(Check):
         clifford = tape.chance(1, 5, "clifford-circuit?")
         deep_clifford = clifford and tape.chance(1, 2, "deep-clifford?")
         g = qgen.Gen(tape, clifford_only=clifford, allow_channels=False, allow_qudits=not clifford,
-                     leaf_bits_cap=(5.0 if deep_clifford else 8.0), max_ops=(36 if deep_clifford else 11))
+                     leaf_bits_cap=(5.0 if deep_clifford else 8.0), max_ops=(36 if deep_clifford else 11),
+                     allow_subcircuits=not deep_clifford)
         circuit = g.circuit()
         if deep_clifford:
             # long entangling Clifford history, then every qubit measured separately: after the first
